@@ -63,6 +63,11 @@ def c07():
         v, files = _run(chk, cmds, "C07-%d" % li, own, env=env, max_lines=600)
         tot = _add_counts(tot, v)
         sample_files += files
+    # the same byte-for-byte comparison on the production configuration (gcc -O2, hooks off), legacy switch on: a
+    # sample of the commands (the historical CRC relies on implementation-defined signed shifts)
+    gc = [c_ for c_ in cmds if c_.startswith("enc_bytes") and c_.endswith(" 1")][::7][:60]
+    vg, fg = _run(chk, gc, "C07-gcc", own, env={"LIBERASURECODE_WRITE_LEGACY_CRC": "1"}, variant="gcc", max_lines=600)
+    chk.parts["gcc_O2_encode_events"] = (vg.counts or [0] * 3)[1]
     m1 = tlc("MC_Wire", "MC_Wire", workers=4, timeout=600, tag="C07")
     chk.add_tlc(m1, "MC_Wire")
     if not m1.ok:
@@ -171,6 +176,8 @@ def c10():
         return ["crcalt %d 300 %d" % (2000 if thorough else 400, _seed_of(chk, 5))]
     chk, v, files, rule = _hdr_check("C10", 64 | 16, ["C10"], 40, 200, "", extra_cmds=extra, lens=[13, 60, 100])
     thorough = chk.tier == "thorough"
+    # the historical CRC against its bitwise definition on the production configuration too (implementation-defined shifts)
+    vg, fg = _run(chk, ["crcalt %d 300 %d" % (400, _seed_of(chk, 6))], "C10-gcc", ["C10", "fault"], variant="gcc")
     # writers: stored checksum = CRC of payload (standard / historical under the switch), every byte (shares C07's oracle)
     for li, leg in enumerate(LEGACY_VALUES):
         cmds = []
